@@ -414,7 +414,7 @@ class TransportLayerLogic:
                     raise ValueError('override_receiver_stmin must be a float')
                 self.override_receiver_stmin = float(self.override_receiver_stmin)
 
-                if self.override_receiver_stmin < 0 or not math.isfinite(self.override_receiver_stmin):
+                if self.override_receiver_stmin < 0 or not math.isfinite(self.override_receiver_stmin * 1e9):
                     raise ValueError('Invalid override_receiver_stmin')
 
             if not isinstance(self.wftmax, int):
